@@ -145,7 +145,40 @@ def source_case(args):
     return None
 
 
+def double_case(args):
+    """Symbols!RedefinitionRejected across definition sources: a name that two sources define (the same or different
+    replacement texts) is rejected, whichever two sources they are; a name each source defines once is accepted."""
+    s1, s2, v1, v2, same_name = args
+    n1, n2 = 'TABSYM', ('TABSYM' if same_name else 'TABSYM2')
+    isa_syms, defs, cli = [], [], []
+    for n, v, src in ((n1, v1, s1), (n2, v2, s2)):
+        if src == 'isa':
+            isa_syms.append((n, v))
+        elif src == 'cli':
+            cli.append(f'{n}={v}')
+        else:
+            defs.append(f'#define {n} {v}\n')
+    case = {'config': carrier_yaml(symbols=isa_syms or None), 'files': {'main.asm': ''.join(defs) + f'.byte {n1}\n.byte {n2}\n.byte 255\n'}, 'defines': cli}
+    obs = runner.run_cli(case)
+    if same_name:
+        if obs['status'] == 'ok':
+            return f'TABSYM defined by {s1} (as {v1}) and again by {s2} (as {v2}): accepted, image {obs["image"].hex() if obs.get("image") else None}', case
+        return None
+    if obs['status'] != 'ok' or obs['image'] != bytes([int(v1), int(v2), 255]):
+        return f'TABSYM defined by {s1} and TABSYM2 by {s2}: {obs["status"]} {(obs.get("msg") or "")[-100:]} {obs["image"].hex() if obs.get("image") else ""}', case
+    return None
+
+
 def run_sources(chk):
+    dj = [(s1, s2, v1, v2, same) for s1 in ('cli', 'isa', 'define') for s2 in ('cli', 'isa', 'define') for (v1, v2) in (('3', '3'), ('3', '4'))
+          for same in (True, False) if not (s1 == s2 == 'isa' and same)]      # one ISA definition cannot list a name twice (a YAML list may; left out)
+    for j, r in zip(dj, runner.pmap(double_case, dj)):
+        chk.traces += 1
+        chk.nontriv(('double', j))
+        if r is not None:
+            chk.violation(r[0], r[1], 'rejected' if j[4] else 'accepted', r[0], {'kind': 'double-source'})
+    chk.notes['double_definition_cases'] = len(dj)
+
     jobs = [(t, w, src) for t, w in SOURCE_TEXTS for src in ('cli', 'isa', 'define')]
     outs = runner.pmap(source_case, jobs)
     for j, r in zip(jobs, outs):
@@ -166,7 +199,7 @@ def run(chk):
                 'and rightmost single-step rewriting), NoDefinedSymbolRemains, OnlyWholeWords, CycleRejected, '
                 'RedefinitionRejected. Each history is replayed line by line into one real Preprocessor object '
                 '(create_symbol / resolve_symbols) and compared token for token - three times: as is, with the names renamed letter-wise to look like hexadecimal literals (ADC, ADCH, FADC, CH), and with every use line repeated nine times (ExpansionIsTokenwise); a sample goes end to end (#define lines, '
-                '.byte use lines, residual identifiers bound to constants, -D and predefined.symbols). Eleven replacement texts with commas, blanks, quoted semicolons and commas are defined through each of the three sources (the command line through the real CLI front end) and must give the same bytes. '
+                '.byte use lines, residual identifiers bound to constants, -D and predefined.symbols). Eleven replacement texts with commas, blanks, quoted semicolons and commas are defined through each of the three sources (the command line through the real CLI front end) and must give the same bytes; a name defined by two sources (command line twice, command line and ISA definition, either and #define, same or different texts) is rejected through the real CLI, two names one per source are accepted. '
                 'Non-trivial = history with a use line after at least one definition.')
     chk.assumptions = ['a cyclic symbol that is never used is not required to be rejected',
                        'end-to-end expected byte = Python arithmetic over the token list the specification produced']
